@@ -109,7 +109,10 @@ def run_pipeline(pipeline, data, ctx: Dict[str, Any], scratch: Optional[str] = N
     if scratch:
         clear_dir(scratch)
     caller_ctx = dict(ctx)
-    pipeline.orchestrator._last_nodes = []
+    # remember what the orchestrator held before this run (its nodes may be reused or rebuilt — not our business)
+    before_nodes = pipeline.orchestrator.last_nodes
+    before_ids = [id(n) for n in before_nodes]
+    before_counts = {id(n): n.stop_watch._start_count for n in before_nodes}
     try:
         res = pipeline.process(Payload(data, ContextType(caller_ctx)))
         out.raw = res
@@ -119,9 +122,13 @@ def run_pipeline(pipeline, data, ctx: Dict[str, Any], scratch: Optional[str] = N
         out.exc = exc
         out.error = type(exc).__name__
         nodes = pipeline.orchestrator.last_nodes
-        started = sum(1 for n in nodes if n.stop_watch._start_count > 0)
-        if not nodes:
-            out.status = "construct"
+        started = sum(1 for n in nodes if n.stop_watch._start_count > before_counts.get(id(n), 0))
+        rebuilt = [id(n) for n in nodes] != before_ids
+        if started == 0 and not rebuilt:
+            out.status = "construct"  # no node object was (re)built or started: the failure precedes execution
+        elif started == 0:
+            out.status = "fail"
+            out.index = -1
         else:
             out.status = "fail"
             out.index = started - 1
